@@ -40,6 +40,7 @@ import (
 	"unsafe"
 
 	"tunnox-core/internal/app/server"
+	"tunnox-core/internal/cloud/models"
 	"tunnox-core/internal/cloud/repos"
 	"tunnox-core/internal/cloud/services"
 	"tunnox-core/internal/command"
@@ -160,6 +161,31 @@ func (f *readFaultStorage) Get(key string) (interface{}, error) {
 		return nil, err
 	}
 	return f.FullStorage.Get(key)
+}
+
+// Cloud read faults: the commands handled in the session layer itself (SOCKS5 tunnel request, traffic report)
+// read the mapping they name through the session's cloud-control adapter, not through the handlers'
+// repositories. SetCloudReadFault puts a fault point in front of that read (GetPortMapping): a non-nil error
+// is returned to the session layer instead of the mapping. nil removes it. Kept beside the adapter (keyed by
+// it) so that the adapter type in srvkit.go stays as it is.
+var cloudReadFaults sync.Map // *faultyCloud -> func(mappingID string) error
+
+func (f *faultyCloud) GetPortMapping(mappingID string) (*models.PortMapping, error) {
+	if g, ok := cloudReadFaults.Load(f); ok {
+		if err := g.(func(string) error)(mappingID); err != nil {
+			return nil, err
+		}
+	}
+	return f.CloudControlAPI.GetPortMapping(mappingID)
+}
+
+// SetCloudReadFault installs (or, with nil, removes) the fault point described above.
+func (s *Server) SetCloudReadFault(fault func(mappingID string) error) {
+	if fault == nil {
+		cloudReadFaults.Delete(s.cloudFault)
+		return
+	}
+	cloudReadFaults.Store(s.cloudFault, fault)
 }
 
 // gatedDomainRepo is the real repository with a scheduling seam in front of the availability check.
